@@ -80,6 +80,17 @@ func New() *BN {
 	return b
 }
 
+// NewGenesisForks is New with the first k+1 forks all scheduled at epoch 0 (as test networks and devnets start:
+// every fork up to some recent one is active from genesis). The fork version in force at epoch 0 is then that of
+// the last of them, while the genesis fork version stays the first one's.
+func NewGenesisForks(k int) *BN {
+	b := New()
+	for i := 1; i <= k && i < len(b.Forks); i++ {
+		b.Forks[i].Epoch = 0
+	}
+	return b
+}
+
 // NewCompact returns a fake node with small fork epochs (0,2,4,..) for slot-driven tests.
 func NewCompact(genesis time.Time, slotDuration time.Duration, slotsPerEpoch uint64) *BN {
 	b := New()
